@@ -47,6 +47,9 @@ func C09(c *core.Ctx) {
 	dsigPath := core.ModPath + "/dsig"
 	// protected dsig API: functions of package dsig that reach a go-jose sink
 	protKind := map[*types.Func]string{}
+	// verifies: reaches a go-jose verification routine at all (whatever else it reaches): the
+	// functions whose success must come from that verification (R6)
+	verifies := map[*types.Func]bool{}
 	if dp := p.Pkg("dsig"); dp != nil {
 		for _, fd := range p.Funcs(dp) {
 			kinds := map[string]bool{}
@@ -70,6 +73,9 @@ func C09(c *core.Ctx) {
 				protKind[fd.Obj] = "unsafe"
 			case kinds["verify"]:
 				protKind[fd.Obj] = "verify"
+			}
+			if kinds["verify"] {
+				verifies[fd.Obj] = true
 			}
 		}
 	}
@@ -137,7 +143,7 @@ func C09(c *core.Ctx) {
 	}
 
 	// R6: inside dsig
-	c09InsideDsig(c, protKind)
+	c09InsideDsig(c, protKind, verifies)
 
 	// R3: Contains coverage
 	c09Contains(c, "C09-R3")
@@ -565,12 +571,9 @@ func c09Contains(c *core.Ctx, rule string) {
 // c09InsideDsig: every dsig function classified as key-verifying must reach
 // success only where a verifying call (go-jose Verify*, or another verifying
 // dsig function) was executed on this path and its error found nil.
-func c09InsideDsig(c *core.Ctx, protKind map[*types.Func]string) {
+func c09InsideDsig(c *core.Ctx, protKind map[*types.Func]string, verifies map[*types.Func]bool) {
 	p := c.P
-	for fn, kind := range protKind {
-		if kind != "verify" {
-			continue
-		}
+	for fn := range verifies {
 		fd := p.DeclOf(fn)
 		if fd == nil {
 			continue
@@ -578,7 +581,7 @@ func c09InsideDsig(c *core.Ctx, protKind map[*types.Func]string) {
 		info := fd.Pkg.TypesInfo
 		ff := core.NewFuncFlow(fd)
 		isVerifier := func(f *types.Func) bool {
-			return joseSinkKind(f) == "verify" || (protKind[f] == "verify" && f != fn)
+			return joseSinkKind(f) == "verify" || (verifies[f] && f != fn)
 		}
 		calls := core.CallsTo(info, fd.Decl.Body, isVerifier)
 		n := 0
